@@ -19,9 +19,14 @@
 (* exactly as when the default is named.  Deviation switch                 *)
 (* DefaultTakesOptions[f] (TRUE = intended): FALSE builds the default      *)
 (* method without the caller's options.                                    *)
+(* "No method given" is `method is None` and nothing else: an empty name   *)
+(* is an unknown name, and a callable object whose truth value is False    *)
+(* (an empty container-like solver object, anything with __len__ == 0 or   *)
+(* __bool__ False) is a callable.  Deviation switch NoneByIdentity (TRUE = *)
+(* intended): FALSE tests `not method` and runs the default instead.       *)
 (***************************************************************************)
 EXTENDS Naturals, Sequences, FiniteSets, TLC
-CONSTANTS LowerFirst, AnyCallable, DefaultTakesOptions
+CONSTANTS LowerFirst, AnyCallable, DefaultTakesOptions, NoneByIdentity
 RF == {"newton", "broyden1", "broyden2", "linearmixing"}
 Functionals == {"solve", "symeig", "rootfinder", "equilibrium", "minimize", "solve_ivp", "quad", "mcquad", "interp1d", "squad"}
 Names == [f \in Functionals |->
@@ -43,15 +48,16 @@ Early == [f \in Functionals |->
 Default == [f \in Functionals |->
    CASE f = "solve" -> "exactsolve" [] f = "symeig" -> "exacteig" [] f \in {"rootfinder", "equilibrium", "minimize"} -> "broyden1"
      [] f = "solve_ivp" -> "rk45" [] f = "quad" -> "leggauss" [] f = "mcquad" -> "mh" [] f \in {"interp1d", "squad"} -> "cspline"]
-ArgClasses == {"none", "exact", "mixedcase", "unknown", "callable", "noncallable"}
-CallableKinds == {"function", "lambda", "partial", "instance", "boundmethod"}
+ArgClasses == {"none", "exact", "mixedcase", "unknown", "emptyname", "callable", "noncallable"}
+CallableKinds == {"function", "lambda", "partial", "instance", "boundmethod", "falsyinstance"}
+Falsy(cls, ck) == cls = "emptyname" \/ (cls = "callable" /\ ck = "falsyinstance")
 Routines == {"function", "lambda", "boundmethod"}
 \* which functionals run the method inside an autograd custom function (gradient recording disabled) and
 \* differentiate implicitly (the callable needs no graph of its own)
 Implicit == {"solve", "symeig", "rootfinder", "equilibrium", "minimize", "solve_ivp", "quad", "mcquad"}
 
 Resolve(f, cls, nm, ck) ==
-   CASE cls = "none" -> Default[f]
+   CASE cls = "none" \/ (~NoneByIdentity /\ Falsy(cls, ck)) -> Default[f]
      [] cls = "exact" -> nm
      [] cls = "mixedcase" -> IF LowerFirst[f] \/ nm \notin Early[f] THEN nm ELSE "raise"    \* an early comparison that misses sends the name to the wrong table
      [] cls = "callable" -> IF AnyCallable \/ ck \in Routines THEN "callable" ELSE "raise"
@@ -68,7 +74,7 @@ Init == /\ f \in Functionals /\ cls \in ArgClasses /\ nm \in Names[f]
 Next == UNCHANGED vars
 Spec == Init /\ [][Next]_vars
 CaseInsensitive == cls = "mixedcase" => outcome = nm
-UnknownRejected == cls \in {"unknown", "noncallable"} => outcome = "raise"
+UnknownRejected == cls \in {"unknown", "emptyname", "noncallable"} => outcome = "raise"
 CallableAccepted == cls = "callable" => outcome = "callable"
 DefaultIsBuiltIn == cls = "none" => outcome \in Names[f]
 OptionsDelivered == outcome # "raise" => opts
